@@ -13,6 +13,42 @@ CHECKS = {
          "Exploration: ~70k (quick) / 2.4M (thorough) texts; the corpus block is identical for every seed. Held = no panic / stack overflow / watchdog hang / bad diagnostic on any generated text; accept/reject is not judged.",
          "Bounds: 64 KiB, depth 64; duplicate/splice not applied inside deftemplate forms (exponential by design); termination judged by a 20 s watchdog per 12 texts.",
          "DESIGN.md §4 C03"),
+ "C08": ("independent macro expander + trace checker over the OS stream projected onto each macro's private key alphabet (order, multiplicity, one step per tick, minimum delays, released at end/after cancellation at every step index, repeat restarts only while held)",
+         "Exploration: 10k (quick) / 300k (thorough) cases over all eight macro variants: single, cancelled at every step index, repeating, 2-4 concurrent, and 5-8 concurrent (overflow). With at most four concurrent macros everything must hold; eviction of the oldest by a fifth macro is the listed known finding.",
+         "Group modifiers (S-(...)) may be released in any order (the guide does not fix it; chords must release in reverse). One custom item per config, judged for macro / macro-repeat only. Trusted: simulated output.",
+         "DESIGN.md §4 C08"),
+ "C10": ("reference evaluator over the generator's own expression tree vs the real parser + Switch::actions (all truth assignments), plus end-to-end scenarios through the stepper (switch and fork witness keys)",
+         "Exploration with exhaustive parts: every or/and/not forest up to size 7 (quick) / 8 (thorough) over three leaf families x all 8 assignments and all break/fallthrough patterns up to 5 cases are enumerated (seed-independent); random depth-8 expressions with every item kind, thresholds on every key-timing compression edge; thousands of end-to-end switch/fork scenarios incl. more than 8 firing cases.",
+         "lt = age <= q(t), gt = age > q(t) with the documented quantisation; zero-operand operators not generated; with more than 8 firing cases only 'no non-firing case is performed' is judged.",
+         "DESIGN.md §4 C10"),
+ "C11": ("exhaustive stepper run over all 749 known codes in four mapping modes, name-table cross-check in every config position against pinned tables (cross-checked with linux/input-event-codes.h), native OsCode<->KeyCode value comparison, mapped-set oracle on random configs; Miri lane (thorough) executes the real transmutes for all 768 values",
+         "Exhaustive over the finite code/name space (identity, names, discriminants) plus exploration for the mapped set (10k / 100k random configs).",
+         "Expected exceptions are the measured ones of DESIGN.md §4 C11 (No and reserved codes silent, mouse pseudo keys as button/scroll events). Membership of codes 0/240 in the process-unmapped set is counted, not judged. The Miri lane is skipped (recorded, not failed) if cargo +nightly miri is unavailable.",
+         "DESIGN.md §4 C11"),
+ "C12": ("independent expansion of accepted defseq tables into typed orderings + prefix check (parser half); trace monitor with witness macros per virtual key over every ordering, every proper prefix + foreign key, T-1/T/T+1 timeouts, three input modes and three leaders (runtime half)",
+         "Exploration: ~60k tables parsed and ~0.9M typing scenarios (quick), 8x that in thorough; 38 fixed tables identical for every seed. Four structural classes around O-(...) groups are listed known findings; every other class is live.",
+         "Only accepted => prefix-free is judged; tables with chorded members run with sequence-backtrack-modcancel no; bare modifiers are not sequence members; always-on + hidden-suppressed excluded.",
+         "DESIGN.md §4 C12"),
+ "C13": ("executable set-based spec of the statement vs Overrides::override_keys on parser-built tables (all ordered key lists up to length 3/4), plus per-tick comparison through the stepper with override-release-on-activation yes/no",
+         "Exhaustive key lists per table (1 886 / 19 046 lists) over 256 systematic + 6 000 random tables, and 12k / 100k random histories through the full pipeline. The order-sensitivity of the implementation is the listed known finding, classified by the modifiers-first re-ordering test; every other deviation is live.",
+         "On an equal-modifier-count tie either entry is accepted (the statement does not decide).",
+         "DESIGN.md §4 C13"),
+ "C14": ("invariant monitor on the OS model at every injected Repeat (at most one output, only for a key that is down) + completeness under the stated precondition with private output alphabets per key",
+         "Exploration: 20k (quick) / 300k (thorough) configs over every key-producing action form nested to depth 3 on 1-3 layers with overrides, held layers, switched base layer, three sequence modes; repeats injected at random points incl. pending decisions and sequence mode. Five structural classes are listed known findings.",
+         "override-release-on-activation yes not generated; completeness not judged for keys pressed during a pending decision; allow-hardware-repeat is an OS-layer filter and ignored.",
+         "DESIGN.md §4 C14"),
+ "C16": ("metamorphic: nine semantically neutral rewrites (defalias, defvar atom/list/concat, deftemplate with and without if-equal, include, platform wrap + decoy, deflayer->deflayermap) singly and composed; compare accept/reject, parsed artefacts and OS traces",
+         "Exploration: 10k (quick) / 80k (thorough) generated configs, ~26k rewritten variants, 2 random histories each; the first 360 cases apply each rewrite kind singly and are identical for every seed.",
+         "Rewrite sites restricted to where the guide promises neutrality (not in defvirtualkeys, defchords, macros, strings). rpt-any, dynamic macros, delays and chords v2 excluded from the profile.",
+         "DESIGN.md §4 C16"),
+ "C19": ("relational oracle: replay output vs a twin run that types the recorded portion again (order; with recorded delays also kanata-internal timing), plus invariants (nothing down after replay, no self-recursion, recording stops at the limit)",
+         "Exploration: 30k (quick) / 600k (thorough) recordings: keys held across start/stop, all stop modes, truncation, re-record, nested and self play, size limit, both delay behaviours, time-sensitive mappings. A stop key processed after later events (pending tap-hold) is the listed known finding.",
+         "Control keys pressed only when no decision is pending; after a limit stop any cut in a 4-event window is accepted (implementation-defined).",
+         "DESIGN.md §4 C19"),
+ "C20": ("text-buffer model of the receiving application replaying the OS stream (shift/altgr state, backspace) vs the dictionary expansion, for every permutation of each entry's keys",
+         "Exploration: 5k (quick) / 40k (thorough) generated dictionaries, ~450k entry scenarios per quick run, with none/lsft/rsft/ralt held, three smart-space settings, tails, non-chord typing and too-slow chords. Five structural classes of follow-up / superset chains are listed known findings.",
+         "output-character-mappings not generated; follow-ups whose proper subset is itself a top-level chord are skipped as ambiguous; with shift held comparison is case-insensitive.",
+         "DESIGN.md §4 C20"),
  "C02": ("crash oracle (panic / abort / stack-overflow / watchdog monitor) over grammar-generated accepted configs x hostile histories; overflow-checked and ASan lanes in thorough",
          "Exploration: every action kind in every placement context systematically, then thousands of random full-grammar configurations, each driven by hostile and consistent histories on the real Kanata object in worker processes whose deaths and panics are attributed to the case. Held = no crash on anything generated; no claim about configurations or histories not generated.",
          "Trusted: the simulated-output backend; the harness' process supervision. Excluded: cmd, clipboard, sleeps > 2 ms. Bounded work per step only via a wall-clock watchdog.",
